@@ -177,6 +177,7 @@ func handlerFunc(app *fiber.App, h ...fiber.Handler) http.HandlerFunc {
 		fctx := ctxPool.Get().(*fasthttp.RequestCtx) //nolint:forcetypeassert,errcheck // overlinting
 		fctx.Response.Reset()
 		fctx.Request.Reset()
+		fctx.ResetUserValues() // Locals of the request this ctx served before
 		defer ctxPool.Put(fctx)
 		fctx.Init(req, remoteAddr, &disableLogger{})
 
